@@ -1,4 +1,5 @@
 import PsiProofs.Helper.C08_Lemmas
+import PsiProofs.Helper.C08_Shapes
 /-!
 # C08 — stimuli have the requested calibrated level; level and polarity scale exactly
 
@@ -151,6 +152,20 @@ theorem filtStim_polarity_out (polIn low high b0 : α) (bt atl z0 : List α) (di
   apply List.map_congr_left; intro y _
   simp only [Function.comp, SignSymm.mul_neg]
 
+/-- … and exact polarity of the carrier (`env * (-tok) = -(env * tok)`). -/
+theorem modulate_polarity (env tok : List α) :
+    modulate env (tok.map (- ·)) = (modulate env tok).map (- ·) :=
+  modulate_neg env tok
+
+/-- `Cos2EnvelopeFactory` over `ToneFactory(polarity=-1)` is the exact negation, chunk by chunk. -/
+theorem rampedTone_polarity (env : List α) (sf fs f ph : α) (off : ℕ) :
+    rampedTone env (-(nat 1)) sf fs f ph off = (rampedTone env (nat 1) sf fs f ph off).map (- ·) := by
+  unfold rampedTone
+  rw [← modulate_neg, List.map_map]
+  congr 1
+  apply List.map_congr_left; intro j _
+  simp only [Function.comp, tone_neg]
+
 end Polarity
 
 /-! ## calibrated level of a tone -/
@@ -174,6 +189,141 @@ theorem tone_calibrated_level (c : Cal ℝ) (n k : ℕ) (fs ph L sf : ℝ) (hfs 
   have := getDb_getSf_C08 c (k * fs / n) L sf h
   exact this
 
+/-! ## FIR noise: the unscaled `lfilter_zi` state is flushed before the first returned sample -/
+
+/-- `ShapedNoiseFactory` / `BandlimitedFIRNoiseFactory` (`a = [1]`: every entry of `atl` is 0) start from
+`lfilter_zi(taps)` and discard `len(zi) = ntaps - 1` samples: what they return does not depend on that state. -/
+theorem filtStim_fir_state_flushed (polIn polOut low high b0 : ℝ) (bt atl z0 z0' : List ℝ)
+    (ha : ∀ a ∈ atl, a = 0) (hb : bt.length = z0.length) (hal : atl.length = z0.length)
+    (hlen : z0'.length = z0.length) (discard : ℕ) (hd : z0.length ≤ discard) (u : List ℝ) :
+    filtStim polIn polOut low high b0 bt atl z0 discard u
+      = filtStim polIn polOut low high b0 bt atl z0' discard u := by
+  unfold filtStim
+  rw [lfilter_fir_flush b0 bt atl ha _ z0 z0' hb hal hlen discard hd]
+
+/-- `shaped_noise`: the level is in the noise bounds, the FIR state is the same (unscaled) at both levels —
+every returned sample is still multiplied by `g = 10^(d/20)`, with **no hypothesis on the state**. -/
+theorem shapedNoise_level_linear (g polIn polOut low high b0 : ℝ) (bt atl z0 : List ℝ)
+    (ha : ∀ a ∈ atl, a = 0) (hb : bt.length = z0.length) (hal : atl.length = z0.length)
+    (discard : ℕ) (hd : z0.length ≤ discard) (u : List ℝ) :
+    filtStim polIn polOut (g * low) (g * high) b0 bt atl z0 discard u
+      = (filtStim polIn polOut low high b0 bt atl z0 discard u).map (g * ·) := by
+  rw [filtStim_fir_state_flushed polIn polOut (g * low) (g * high) b0 bt atl z0 (z0.map (g * ·)) ha hb hal
+    (by simp) discard hd u]
+  exact filtStim_level_linear g polIn polOut low high b0 bt atl z0 discard u
+
+/-- `bandlimited_fir_noise`: the level is in the taps (`firwin2(gain = sf)`, linear in its gains — an input
+cell), the noise bounds are `±√3` whatever the level, the state is `lfilter_zi` of the respective taps
+(any `z0`, `z0'` here): every returned sample is multiplied by `g`. -/
+theorem firNoise_level_linear (g polIn polOut low high b0 : ℝ) (bt atl z0 z0' : List ℝ)
+    (ha : ∀ a ∈ atl, a = 0) (hb : bt.length = z0.length) (hal : atl.length = z0.length)
+    (hlen : z0'.length = z0.length) (discard : ℕ) (hd : z0.length ≤ discard) (u : List ℝ) :
+    filtStim polIn polOut low high (g * b0) (bt.map (g * ·)) atl z0' discard u
+      = (filtStim polIn polOut low high b0 bt atl z0 discard u).map (g * ·) := by
+  rw [filtStim_fir_state_flushed polIn polOut low high (g * b0) (bt.map (g * ·)) atl z0' (z0.map (g * ·)) ha
+    (by simp [hb, hlen]) (by simp [hal, hlen]) (by simp [hlen]) discard (by omega) u]
+  unfold filtStim
+  rw [lfilter_scale_b]
+  dsimp only
+  rw [← List.map_drop, List.map_map, List.map_map]
+  apply List.map_congr_left; intro y _; simp only [Function.comp]; ring
+
+/-! ## stimuli scaled by `get_mean_sf` / `get_sf`, through any calibration -/
+
+/-- `get_mean_sf(flb, fub, L + d) = 10^(d/20)·get_mean_sf(flb, fub, L)` for flat, interpolated and point
+calibrations: the scale factor of `chirp`, `broadband_noise`, `notch_noise`, `bandlimited_noise`, `shaped_noise`
+and (inside `firwin2`'s gains) `bandlimited_fir_noise`. -/
+theorem meanSf_level_linear (c : Cal ℝ) (flb : ℝ) (freqs : List ℝ) (L d x : ℝ)
+    (h : getMeanSf c flb freqs L 0 = .val x) :
+    getMeanSf c flb freqs (L + d) 0 = .val ((10 : ℝ) ^ (d / 20) * x) := by
+  rw [getMeanSf_level_map, h, Res.map_val]
+
+/-- `chirp` (model `chirp`: `√2·sf·(w/rms w)·sin(2π·cumsum(ifreq)/fs)` from the window samples `w`) with
+`sf = get_mean_sf(f0, f1, level)`: +d dB multiplies every sample by `10^(d/20)`, through any calibration. -/
+theorem chirp_level_linear (c : Cal ℝ) (fs f0 f1 : ℝ) (freqs : List ℝ) (L d x : ℝ) (w : List ℝ)
+    (h : getMeanSf c f0 freqs L 0 = .val x) :
+    ∃ x', getMeanSf c f0 freqs (L + d) 0 = .val x' ∧
+      chirp fs f0 f1 x' w = (chirp fs f0 f1 x w).map ((10 : ℝ) ^ (d / 20) * ·) :=
+  ⟨_, meanSf_level_linear c f0 freqs L d x h, chirp_scale _ fs f0 f1 x w⟩
+
+/-- the chirp's envelope `w / util.rms(w)` has RMS exactly 1 (so that `√2·sf·envelope·sin` is a unit-RMS-envelope
+sinusoid of RMS amplitude `sf`; the 1 s RMS itself is `sf` only up to the sweep's cross terms — oracle, 0.5 dB). -/
+theorem chirp_envelope_unit_rms (w : List ℝ) (hw : rmsL w ≠ 0) : rmsL (w.map (· / rmsL w)) = 1 :=
+  rmsL_normalized w hw
+
+/-- `ClickFactory`: `polarity * get_sf(0, level) * ones(n)` — level through the calibration. -/
+theorem click_level_linear (c : Cal ℝ) (L d x pol : ℝ) (n : ℕ) (h : getSf c 0 L 0 = .val x) :
+    ∃ x', getSf c 0 (L + d) 0 = .val x' ∧
+      scaled pol x' (List.replicate n 1) = (scaled pol x (List.replicate n 1)).map ((10 : ℝ) ^ (d / 20) * ·) :=
+  ⟨(10 : ℝ) ^ (d / 20) * x, by rw [getSf_level_map, h, Res.map_val], scaled_level_linear _ _ _ _⟩
+
+/-! ## envelope × carrier (`Cos2EnvelopeFactory`, any `Modulator` / `GateFactory`) -/
+
+/-- multiplying by an envelope keeps level linearity of the carrier … -/
+theorem modulate_level_linear (g : ℝ) (env tok : List ℝ) :
+    modulate env (tok.map (g * ·)) = (modulate env tok).map (g * ·) :=
+  modulate_scale g env tok
+
+/-- `Cos2EnvelopeFactory` over `ToneFactory`: +d dB multiplies every sample of every chunk by `g`. -/
+theorem rampedTone_level_linear (g : ℝ) (env : List ℝ) (pol sf fs f ph : ℝ) (off : ℕ) :
+    rampedTone env pol (g * sf) fs f ph off = (rampedTone env pol sf fs f ph off).map (g * ·) := by
+  unfold rampedTone
+  rw [← modulate_scale, List.map_map]
+  congr 1
+  apply List.map_congr_left; intro j _
+  simp only [Function.comp, tone_scale]
+
+/-! ## wav playback (`load_wav`, `WavFileFactory`) -/
+
+/-- `waveform *= sf`: +d dB multiplies every sample by `g`, whatever the normalisation. -/
+theorem loadWav_level_linear (g : ℝ) (norm : WavNorm) (sf : ℝ) (x : List ℝ) :
+    loadWav norm (g * sf) x = (loadWav norm sf x).map (g * ·) := by
+  simp only [loadWav, List.map_map]
+  apply List.map_congr_left; intro v _; simp only [Function.comp]; ring
+
+/-- **`normalization='rms'` delivers the requested level**: the RMS of what is played is `get_sf(1e3, level)`. -/
+theorem loadWav_rms_level (sf : ℝ) (x : List ℝ) (hx : rmsL x ≠ 0) (hsf : 0 ≤ sf) :
+    rmsL (loadWav .rms sf x) = sf := by
+  have hr : 0 < rmsL x := lt_of_le_of_ne (by rw [rmsL_real]; exact Real.sqrt_nonneg _) (Ne.symm hx)
+  have e : loadWav .rms sf x = x.map ((sf / rmsL x) * ·) := by
+    simp only [loadWav, wavNormalize, List.map_map]
+    apply List.map_congr_left; intro v _; simp only [Function.comp]; ring
+  rw [e, rmsL_scale, abs_of_nonneg (div_nonneg hsf hr.le)]
+  field_simp
+
+/-- **`normalization='pe'` delivers the requested peak**: the maximum of what is played is `get_sf(1e3, level)`
+(for a waveform whose maximum is positive). -/
+theorem loadWav_pe_level (sf a : ℝ) (t : List ℝ) (hm : 0 < lmaxFrom a t) (hsf : 0 ≤ sf) :
+    ∃ b t', loadWav .pe sf (a :: t) = b :: t' ∧ lmaxFrom b t' = sf := by
+  have e : loadWav .pe sf (a :: t) = (sf / lmaxFrom a t * a) :: t.map ((sf / lmaxFrom a t) * ·) := by
+    simp only [loadWav, wavNormalize, List.map_map, List.map_cons]
+    congr 1
+    · ring
+    · apply List.map_congr_left; intro v _; simp only [Function.comp]; ring
+  refine ⟨_, _, e, ?_⟩
+  rw [lmaxFrom_scale _ (div_nonneg hsf hm.le)]
+  field_simp
+
+/-! ## band-limited click -/
+
+/-- `bandlimited_click`: the level enters through the flat pass-band magnitude `sf` of the spectrum handed to
+`csd_to_signal`, which is linear: every sample of the click is multiplied by `g`. -/
+theorem blClick_level_linear (g : ℝ) (n nw : ℕ) (fs sf : ℝ) (klo khi i : ℕ) :
+    blClick n nw fs (g * sf) klo khi i = g * blClick n nw fs sf klo khi i := by
+  unfold blClick
+  rw [← csdToSignal_smul]
+  congr 1
+  funext k
+  exact clickSpec_scale g n fs sf klo khi k
+
+/-- …and that magnitude is the mean over the pass band of `get_sf(f, band_to_spectrum_level(level, count))`,
+each term of which carries the factor `10^(d/20)`. -/
+theorem blClick_sf_level_linear (c : Cal ℝ) (f L d cnt x : ℝ) (h : getSf c f (bandToSpectrum L cnt) 0 = .val x) :
+    getSf c f (bandToSpectrum (L + d) cnt) 0 = .val ((10 : ℝ) ^ (d / 20) * x) := by
+  have e : bandToSpectrum (L + d) cnt = bandToSpectrum L cnt + d := by
+    simp only [bandToSpectrum]; ring
+  rw [e, getSf_level_map, h, Res.map_val]
+
 /-! ## non-vacuity -/
 
 example : ∃ x', getSf (Cal.fromSpl (94 : ℝ) 1 0) 1000 (60 + 20) 0 = .val x' ∧
@@ -184,5 +334,16 @@ example : ∃ x', getSf (Cal.fromSpl (94 : ℝ) 1 0) 1000 (60 + 20) 0 = .val x' 
 example : filtStim (-(nat 1)) (nat 1) (-1 : ℝ) 1 1 [0.5] [-0.9] (zeroState 1) 0 [0.25, 0.75]
     = (filtStim (nat 1) (nat 1) (-1 : ℝ) 1 1 [0.5] [-0.9] (zeroState 1) 0 [0.25, 0.75]).map (- ·) :=
   filtStim_polarity_in_zero _ _ _ _ _ _ _ _
+
+example := shapedNoise_level_linear 10 1 (-1) (-1) 1 0.5 [0.25, 0.125] [0, 0] [3, 4] (by simp) rfl rfl 2 (by simp)
+  [0.25, 0.75, 0.5]
+example := firNoise_level_linear 10 1 (-1) (-1) 1 0.5 [0.25, 0.125] [0, 0] [3, 4] [30, 40] (by simp) rfl rfl rfl 2
+  (by simp) [0.25, 0.75, 0.5]
+example := loadWav_rms_level 2 [3, -4] (by rw [rmsL_real]; simp; norm_num) (by norm_num)
+example := loadWav_pe_level 2 (-1) [3, 2] (by rw [lmaxFrom_real]; simp; norm_num) (by norm_num)
+example := rampedTone_polarity ([0, 0.5, 1] : List ℝ) 2 1000 100 0 0
+example := meanSf_level_linear (Cal.fromSpl (94 : ℝ) 1 0) 1000 [] 60 20 _ rfl
+example := chirp_level_linear (Cal.fromSpl (94 : ℝ) 1 0) 20000 1000 2000 [] 60 20 _ [1, 1, 1] rfl
+example := chirp_envelope_unit_rms [3, -4] (by rw [rmsL_real]; simp; norm_num)
 
 end Psi.Db
